@@ -36,7 +36,7 @@ def generate(st):
     cfg = {
         'n_dates': sw.choice([17, 20, 30, 40, 60] + ([120] if getattr(st, 'deep', False) else [])) if big else sw.choice([1, 2, 3, 3, 4, 5, 6, 8]),
         'n_ops': sw.choice([4, 6, 8, 10, 12]) if big else sw.choice([5, 8, 10, 14, 18, 24] + ([40] if getattr(st, 'deep', False) else [])),
-        'values': sorted(sw.sample([1.0, 2.0, 3.0, 4.0, 7.5], sw.randint(2, 4)) + ([1.0000001, 1.0000002] if sw.random() < 0.25 else [])),      # revisions may be tiny
+        'values': sorted(sw.sample([1.0, 2.0, 3.0, 4.0, 7.5], sw.randint(2, 4)) + ([1.0000001, 1.0000002] if sw.random() < 0.25 else []) + (sw.sample([-9999.0, -999.0, -1.0, 0.0, 99999.0], 2) if sw.random() < 0.25 else [])),      # revisions may be tiny; values may look like placeholders
         'p_nan': sw.choice([0.0, 0.1, 0.3, 0.5]),
         'p_partial': sw.choice([0.0, 0.3, 0.6]),
         'ticks': sorted(set(sw.sample(TICKS, sw.randint(2, len(TICKS))))),
@@ -54,7 +54,7 @@ def generate(st):
         cfg['modes'] = ['explicit']
     if getattr(st, 'deep', False) and sw.random() < 0.02:
         # thorough tier only: a store of a few thousand rows (size thresholds in the library, if any, lie far above the quick tier)
-        cfg.update({'n_dates': sw.choice([700, 1100]), 'n_ops': 6, 'p_partial': 0.0, 'p_nan': 0.3})
+        cfg.update({'n_dates': sw.choice([700, 1100]), 'n_ops': 8, 'p_partial': 0.0, 'p_nan': 0.3, 'span_patches': True})
     if not cfg['faulty']:
         cfg['ticks'] = [t for t in cfg['ticks'] if t > 0] or [1]
     now = datetime.datetime.fromisoformat(cfg['origin'])
@@ -64,7 +64,13 @@ def generate(st):
 
     def version():
         n = cfg['n_dates']
-        ids = [i for i in range(n) if g.random() >= cfg['p_partial']] or [g.randrange(n)]
+        if cfg.get('span_patches') and n_pub >= 1:
+            # a long store is patched over a short contiguous stretch of dates
+            w = g.choice([3, 10, 40])
+            lo = g.randrange(0, n - w)
+            ids = list(range(lo, lo + w))
+        else:
+            ids = [i for i in range(n) if g.random() >= cfg['p_partial']] or [g.randrange(n)]
         vals = []
         for i in ids:
             if cfg['ints'] and cfg['p_nan'] == 0.0:
@@ -140,6 +146,10 @@ def generate(st):
             for _ in ops[src]['versions']:
                 stamps.append(now)
                 n_pub += 1
+        elif r < 0.695 and n_pub:
+            ops.append({'op': 'publish_swapped', 'a': g.randrange(1000), 'b': g.randrange(1000)})
+            stamps.append(now + datetime.timedelta(seconds=cfg['stamp_offset']))
+            n_pub += 1
         elif r < 0.71 and cfg['faulty'] and n_pub:
             # fault: a malformed version (its stamp column holds text); the merge raises, the caller keeps the old store
             ops.append({'op': 'bad_merge', 'vals': version()})
@@ -450,6 +460,30 @@ def execute(trace, ctx=None):
                     messages.append((lib(lambda raw=raw: Bi(series(raw), stamp), 'Bi'), stamp, vals))
                     after_publication(stamp)
                 _check_store(store, model, k)
+            elif kind == 'publish_swapped':
+                # a publisher puts two swapped observations right: the new version holds the same values as the store does
+                # today, two of them exchanged
+                if store is None:
+                    continue
+                stamp = SimClock.now + datetime.timedelta(seconds=cfg.get('stamp_offset', 0))
+                if model.stamps() and stamp < model.stamps()[-1]:
+                    continue
+                cur = model.read_last(stamp)
+                ids = sorted(i for i, v in cur.items() if not _isnan(v))
+                if len(ids) < 2:
+                    continue
+                i1, i2 = ids[op['a'] % len(ids)], ids[op['b'] % len(ids)]
+                if cur[i1] == cur[i2]:
+                    continue
+                vals = [(i, cur[i2] if i == i1 else cur[i1] if i == i2 else cur[i]) for i in ids]
+                raw = [[i, enc(v)] for i, v in vals]
+                msg = lib(lambda: Bi(series(raw), stamp), 'Bi(series, stamp)')
+                store = lib(lambda: bi_merge(store, msg), 'bi_merge(store, correction)')
+                res.probe('correction-swapping-two-held-values')
+                model.publish(stamp, vals)
+                messages.append((msg, stamp, vals))
+                after_publication(stamp)
+                _check_store(store, model, k)
             elif kind == 'bad_merge':
                 if store is None:
                     continue
@@ -638,7 +672,7 @@ def signature(trace, violation):
 PROBES = ['same-stamp-publication', 'same-stamp-override', 'nan-does-not-override', 'revert-to-earlier-value',
           'date-first-published-later', 'store>=17-rows', 'implicit-now-stamp', 'read-strictly-between-stamps',
           'read-before-first-stamp', 'redelivery-of-version-in-store', 'redelivery-of-overridden-version',
-          'bump-stamp-capped-at-now', 'named-series', 'several-versions-merged-in-one-call', 'stamp-ahead-of-clock', 'named-index', 'caller-owned-list-of-plain-series', 'same-list-object-published-again', 'store-started-from-plain-old-data']
+          'bump-stamp-capped-at-now', 'named-series', 'several-versions-merged-in-one-call', 'stamp-ahead-of-clock', 'named-index', 'caller-owned-list-of-plain-series', 'same-list-object-published-again', 'store-started-from-plain-old-data', 'correction-swapping-two-held-values']
 TIERS = {'quick': {'runs': 4000, 'wallcap': 50}, 'thorough': {'runs': 150000, 'wallcap': 800}}
 COMPONENTS = {
     'real': ['pyg_base._bitemporal Bi / bi_merge / bi_read', 'pyg_base._dates.dt (stamp parsing, "now")', 'pandas concat/sort/groupby'],
